@@ -194,3 +194,26 @@ text("C07",
      "a real HopServer with authorization grants enabled and transport-level admission by the grant key set; 1-5 grants (shell, command with drawn texts, local and remote port-forward; start times in the past, now, in 20 s / 90 s / 1 h; lifetimes 30 s / 5 min / 2 h; two users, two delegate keys) are installed with the real AddAuthGrant, more are added between sessions; scripted delegates connect with a granted or a foreign key, log in, and issue drawn action requests separated by clock jumps of seconds, minutes and hours that straddle start and expiry: exec-tube pairs (granted text, text differing by one byte, prefix, other case, other commands, empty, shell flag on/off, repeats), remote port-forward control requests, authorization-grant tubes carrying a further intent; reference model: multiset of grants moved to the session at login; the set of actions the server STARTED must have an injective assignment to unused grants of that session with matching type, identical command text and start <= t < expiry (maximum matching, so the model is never stricter than necessary); login itself needs an unconsumed grant for exactly (user, key)",
      TB + "; a shell grant is taken to cover any request with the shell flag (that is what a shell gives)",
      "deterministic simulation with fault injection (clock jumps + request histories against a grant-multiset reference model)", "DESIGN.md 4 C07")
+
+# ---------------------------------------------------------------------------------------------------------------
+# what the scenarios gained during the seeded-change waves (DESIGN.md section 11); appended to the texts above
+ADDED = {
+    "C01": "impostors also tamper with the proof fields of their own final handshake messages (left out, shortened, zeroed, inverted, halves swapped, two bytes under one mask), present the expected label under another name type, use keys that were listed and removed again, and make preparatory attempts (own root in the intermediate slot, ...) against the server's long-lived verifier before the real attempt",
+    "C02": "two complete sweeps in the quick tier: per offset the masks single-bit, 0x80 and two seeded ones, every neighbouring byte pair under one mask, every truncation length alone and again right behind a full copy of the datagram from another address, 28 replacements",
+    "C03": "type-byte substitution on genuine packets, cross-injection of genuine packets between sessions and directions, late network duplicates of the handshake datagrams with the session outliving the server's handshake timeout",
+    "C04": "un-nested validity windows and forged intermediates naming a trusted root (signed with real keys through an overlay hook on the internal issuing routine), explicit verification times incl. past instants, names built through the public constructors, long-lived stores shared by many queries, stores loaded from PEM bundles, every question asked again on the same store",
+    "C05": "file edits between logins (same-size key replacement with preserved / same-second / later modification time; the simulated file system answers Stat), embedded key texts, run-time toggling of EnableAuthgrants, a slow file system (read and close take simulated time) with dense concurrent logins",
+    "C06": "in a third of the runs the approval hook runs inside a real transport handshake with a real transport server standing for the target (VerifyConfig.AddVerifyCallback under store+name / store / InsecureSkipVerify); denial reasons that are not ASCII (<= 255 characters, > 255 bytes)",
+    "C07": "forbidden tubes opened between the two tubes of an exec pair, commands sent seconds to hours after their tubes were opened, the same exec request twice at the same moment, a slow user lookup, overlapping logins with one delegate key under yields; the started command (text, shell flag, time) is taken from the server's own log entry; oracle on the transport layer's trusted-key set after the last grant of a key was consumed",
+    "C08": "in a sixth of the runs the muxers run on a real transport session; sequence space of fresh tubes moved close to and across the 32-bit frame-number wrap; schedule perturbation in the tube code and a socket that holds writers up (bounded in time like the other faults); reassembly core with duplicate floods parked behind a gap",
+    "C09": "yields in the muxer, messages near and over the size limits (the simulated endpoints enforce the limits of what they stand for), a muxer that stops by itself is a violation, real transport under the muxers in an eighth of the runs",
+    "C10": "the attacker's own, correctly authenticated handshake messages with altered length prefixes and with certificate blobs of its own making; handshakes abandoned after the ClientAck followed later by an honest client from the same address; host patterns with literal text on both sides of the wildcard and names on their edges; sources the server cannot reach (its answers fail with an error); a session closed in the middle of the junk",
+    "C11": "the honest side closes every second Byzantine tube; a well-formed flood (unread unreliable tube, 990-2500 datagrams, FIN); the honest background transfer runs under loss, socket stalls and schedule perturbation",
+    "C14": "send counters moved close to and across 2^32, 2^31, 2^48, 2^63 (the state a long-lived session reaches by itself); empty messages",
+    "C15": "truncated copies and port-only / host-only moves, receive queues of 1-4 packets with a slow application, several writers per connection with blocking socket writes",
+    "C16": "large writes, real transport under the muxers in an eighth of the runs, at closure the bytes a tube holds for its reader must all be returned",
+    "C17": "short-buffer reads with a byte-level connection model, long pauses (operations meeting a connection whose handshake failed), handshakes bounded by deadline only or by both, a server that falls silent after its first answer, socket Close reporting an error, harness Close calls bounded and judged",
+    "C19": "IPv6 client addresses, acknowledgements from the same address while its handshake is pending (altered / zero / foreign-key cookie, random bytes), acknowledgement under a KEM key differing from the cookie's in a few bytes",
+}
+for _p, _t in ADDED.items():
+    TEXT[_p]["level_text"] += ". Added during the seeded-change waves: " + _t
